@@ -253,6 +253,10 @@ def gen_entries(rng, n, t0_us=None, pattern="increasing", binary_p=0.1, multilin
             else:
                 v = bytes(rng.choice(b"abcdefghijklmnopqrstuvwxyz-./_") for _ in range(rng.randint(1, 20)))
             fields.append((nm, v))
+        if len(fields) > 1 and rng.random() < 0.15:
+            # a field may occur more than once in an entry, with different values
+            nm = rng.choice([f for f in fields if f[0] != b"MESSAGE"])[0]
+            fields.append((nm, b"second-" + bytes(rng.choice(b"abcdef") for _ in range(rng.randint(1, 8)))))
         if rng.random() < 0.3:
             rng.shuffle(fields)
         out.append(Entry(t, mono, boot, fields))
